@@ -64,6 +64,19 @@ func vfC05Exec(v *vfT, c vfC05Case) *vfC05Result {
 	defer gates.Uninstall()
 	actors := vfNewActors()
 
+	// closedAtCall: the queue was already marked closed (GracefulClose had taken effect) when the
+	// Enqueue call for this item began; such an item is "queued later" than the close in every
+	// linearization and must never run
+	closedAtCall := map[string]bool{}
+	noteEnqCall := func(id string) {
+		ops.mu.Lock()
+		closed := ops.isClosed
+		ops.mu.Unlock()
+		evMu.Lock()
+		closedAtCall[id] = closed
+		evMu.Unlock()
+		rec("enqCall", id)
+	}
 	var running atomic.Int32
 	var serialBroken atomic.Bool
 	var mkItem func(id string, children int) operation
@@ -75,7 +88,7 @@ func vfC05Exec(v *vfT, c vfC05Case) *vfC05Result {
 			rec("runStart", id)
 			for k := 0; k < children; k++ {
 				cid := fmt.Sprintf("%s.c%d", id, k)
-				rec("enqCall", cid)
+				noteEnqCall(cid)
 				ops.Enqueue(mkItem(cid, 0))
 				rec("enqRet", cid)
 			}
@@ -107,7 +120,7 @@ func vfC05Exec(v *vfT, c vfC05Case) *vfC05Result {
 					id := fmt.Sprintf("e%d.%d", e, j)
 					stepSeq++
 					actors.Go(fmt.Sprintf("%s#%d", name, stepSeq), func() {
-						rec("enqCall", id)
+						noteEnqCall(id)
 						ops.Enqueue(mkItem(id, c.Enqueuers[e][j]))
 						rec("enqRet", id)
 					})
@@ -184,7 +197,7 @@ func vfC05Exec(v *vfT, c vfC05Case) *vfC05Result {
 	if closeRet {
 		for k := 0; k < c.LateEnq; k++ {
 			id := fmt.Sprintf("late%d", k)
-			rec("enqCall", id)
+			noteEnqCall(id)
 			ops.Enqueue(mkItem(id, 0))
 			rec("enqRet", id)
 		}
@@ -264,6 +277,12 @@ func vfC05Exec(v *vfT, c vfC05Case) *vfC05Result {
 		enqRet := at("enqRet", id)
 		if closeRetAt != 0 && at("enqCall", id) > closeRetAt && n > 0 {
 			v.Violation("C05/ran-after-close", "item %s was enqueued after GracefulClose returned and still ran; trace %v", id, res.trace)
+		}
+		if closedAtCall[id] && n > 0 {
+			v.Violation("C05/ran-after-close", "item %s was enqueued when GracefulClose had already marked the queue closed (the close was still waiting for the running item) and it ran; trace %v", id, res.trace)
+		}
+		if closedAtCall[id] {
+			v.Label("enqueue-while-close-waits")
 		}
 		if n == 0 && enqRet != 0 && (closeCallAt == 0 || enqRet < closeCallAt) {
 			v.Violation("C05/item-lost", "item %s was accepted (Enqueue returned before any close was called) but never ran; queue length at quiescence=%d, worker alive=%v; trace %v",
